@@ -282,6 +282,13 @@ pub fn to_hex(value: f64) -> String {
         _ => {
             const BITS: i16 = 52;
             const FRACT_MASK: u64 = 0xf_ffff_ffff_ffff;
+            // integer_decode doubles a subnormal's mantissa (exponent -1075); undo it so that the
+            // text is float.hex()'s `0x0.<frac>p-1022`
+            let (mantissa, exponent) = if value.is_normal() {
+                (mantissa, exponent)
+            } else {
+                (mantissa >> 1, exponent + 1)
+            };
             format!(
                 "{}{:#x}.{:013x}p{:+}",
                 sign_fmt,
